@@ -324,4 +324,55 @@ theorem argTreeNd_eq (lt : Int → Int → Bool)
     rw [List.mem_range'_1] at hp; omega
   simp only [Function.comp_def, hcand, ravel_unravel _ p hp']
 
+/-! ### what `argBest` (NumPy's argmin / argmax of the raveled data) returns -/
+
+/-- `argBest` (the model of `np.argmin` / `np.argmax` on the raveled data) returns the FIRST position of the best value:
+    everything before it is strictly worse, nothing after it is better -/
+theorem argBest_go_first (lt : Int → Int → Bool)
+    (h1 : ∀ a b c, lt a b = true → lt b c = true → lt a c = true)
+    (h2 : ∀ a b c, lt a b = true → lt c b = false → lt a c = true) :
+    ∀ (ys pre : List Int) (best : Int) (post : List Int), (∀ x ∈ pre, lt best x = true) → (∀ x ∈ post, lt x best = false) →
+      ∃ l1 l2, pre ++ best :: post ++ ys = l1 ++ (argBest.go lt best pre.length (pre.length + 1 + post.length) ys).1 :: l2 ∧
+        l1.length = (argBest.go lt best pre.length (pre.length + 1 + post.length) ys).2 ∧
+        (∀ x ∈ l1, lt (argBest.go lt best pre.length (pre.length + 1 + post.length) ys).1 x = true) ∧
+        (∀ x ∈ l2, lt x (argBest.go lt best pre.length (pre.length + 1 + post.length) ys).1 = false)
+  | [], pre, best, post, hpre, hpost => ⟨pre, post, by simp [argBest.go], rfl, hpre, hpost⟩
+  | y :: ys, pre, best, post, hpre, hpost => by
+    by_cases hlt : lt y best = true
+    · have ih := argBest_go_first lt h1 h2 ys (pre ++ best :: post) y [] (by
+        intro x hx
+        rcases List.mem_append.mp hx with hx | hx
+        · exact h1 _ _ _ hlt (hpre x hx)
+        · rcases List.mem_cons.mp hx with rfl | hx
+          · exact hlt
+          · exact h2 _ _ _ hlt (hpost x hx)) (by simp)
+      simp only [argBest.go, if_pos hlt]
+      have e : (pre ++ best :: post).length = pre.length + 1 + post.length := by simp; omega
+      rw [e] at ih
+      simpa [List.append_assoc] using ih
+    · have hf : lt y best = false := by simpa using hlt
+      have ih := argBest_go_first lt h1 h2 ys pre best (post ++ [y]) hpre (by
+        intro x hx
+        rcases List.mem_append.mp hx with hx | hx
+        · exact hpost x hx
+        · simp at hx; subst hx; exact hf)
+      simp only [argBest.go, if_neg hlt]
+      have e : pre.length + 1 + (post ++ [y]).length = pre.length + 1 + post.length + 1 := by simp; omega
+      rw [e] at ih
+      simpa [List.append_assoc] using ih
+
+theorem argBest_first (lt : Int → Int → Bool)
+    (h1 : ∀ a b c, lt a b = true → lt b c = true → lt a c = true)
+    (h2 : ∀ a b c, lt a b = true → lt c b = false → lt a c = true)
+    (xs : List Int) (v : Int) (i : Nat) (h : argBest lt xs = some (v, i)) :
+    ∃ l1 l2, xs = l1 ++ v :: l2 ∧ l1.length = i ∧ (∀ x ∈ l1, lt v x = true) ∧ (∀ x ∈ l2, lt x v = false) := by
+  cases xs with
+  | nil => simp [argBest] at h
+  | cons x xs =>
+    simp only [argBest, Option.some.injEq] at h
+    have := argBest_go_first lt h1 h2 xs [] x [] (by simp) (by simp)
+    simp only [List.length_nil, List.nil_append, List.cons_append, Nat.zero_add, Nat.add_zero] at this
+    rw [h] at this
+    exact this
+
 end Dask.ArrayReduce
